@@ -2,7 +2,7 @@
 "is this a non-negative combination of what we assumed" test.  No search beyond pairs of assumptions,
 no solver.  Quantities are treated as mathematical integers (sizes, counts and addresses of the library
 do not wrap; stated in DESIGN §8)."""
-from .terms import (rebuild_purecall, rebuild_generic, Lin, ZERO, const, atom, TRUE, FALSE, c_not, c_and, c_or, c_cmp, mk_gamma, mk_mul, mk_alignup, mk_and, subst,
+from .terms import (mk_bin, rebuild_purecall, rebuild_generic, Lin, ZERO, const, atom, TRUE, FALSE, c_not, c_and, c_or, c_cmp, mk_gamma, mk_mul, mk_alignup, mk_and, subst,
                     cond_atoms, show, show_cond)
 
 
@@ -137,6 +137,8 @@ class Facts:
         f = Facts()
         f.ge, f.eq, f.ne, f.raw = list(self.ge), list(self.eq), list(self.ne), list(self.raw)
         f.cong_atom = self.cong_atom
+        if self.__dict__.get("congs"):
+            f.__dict__["congs"] = list(self.__dict__["congs"])
         return f
 
     # ---- A2: low-bits congruence domain ---------------------------------------------------------
@@ -148,6 +150,28 @@ class Facts:
             return (1, 0)
         if t.is_const():
             return (0, t.c)
+        congs = self.__dict__.get("congs")
+        if congs and depth < 3:
+            # assumed linear congruences  L ≡ 0 (mod A): subtracting ±L leaves the residue mod A unchanged and
+            # may cancel atoms whose own congruence is unknown
+            base = self._cong_plain(t, depth)
+            best = base
+            for (L, A) in congs:
+                for k in (1, -1):
+                    c2 = self._cong_plain(t - L.scale(k), depth + 1)
+                    m2 = c2[0] if c2[0] and c2[0] <= A else (A if c2[0] == 0 or c2[0] > A else c2[0])
+                    cand = (m2, c2[1] % m2) if m2 else c2
+                    if cand[0] and (best[0] != 0) and cand[0] > best[0]:
+                        best = cand
+            return best
+        return self._cong_plain(t, depth)
+
+    def add_cong(self, L, A):
+        """assume L ≡ 0 (mod A)"""
+        self.__dict__.setdefault("congs", []).append((L, A))
+        self.raw.append(("congruent", L, A))  # (bumps the memo version; never decided or split on)
+
+    def _cong_plain(self, t, depth=0):
         m, r = 0, t.c
         for a, k in t.t:
             am, ar = self.cong_of_atom(a, depth)
@@ -313,7 +337,7 @@ class Facts:
                 msk = (1 << k) - 1
                 x = a[1]
                 r = mk_and(x, const(msk))
-                e = x - atom(a).scale(1 << k) - r
+                e = self.apply_sub(x - atom(a).scale(1 << k) - r)  # (an assumed r == 0 has eliminated r)
                 rows.append(e)
                 rows.append(-e)
                 for b in r.atoms():
@@ -322,11 +346,22 @@ class Facts:
                 xm, xr = self.cong(x)
                 if xr == 0 and xm > 1:
                     rows.append(const((1 << k) - min(xm, 1 << k)) - r)
+        for a in list(allat):  # (second pass: includes the x & m atoms introduced by the lshr rows above)
             if a[0] == "and":
                 for u, w in ((a[1], a[2]), (a[2], a[1])):
                     if isinstance(w, Lin) and w.is_const() and w.c > 0:
                         rows.append(atom(a))
                         rows.append(const(w.c) - atom(a))
+                        # x == 2^k * (x >> k) + (x & (2^k - 1))
+                        if (w.c & (w.c + 1)) == 0 and w.c.bit_length() < 32 and isinstance(u, Lin) and _depth < 2:
+                            kb = w.c.bit_length()
+                            hi = mk_bin("lshr", u, const(kb))
+                            e = self.apply_sub(u - hi.scale(1 << kb) - atom(a))
+                            rows.append(e)
+                            rows.append(-e)
+                            xm, xr = self.cong(u)
+                            if xr == 0 and xm > 1:
+                                rows.append(const((1 << kb) - min(xm, 1 << kb)) - atom(a))
         for a in list(allat):
             if a[0] == "b2i":
                 rows.append(atom(a))
@@ -861,6 +896,11 @@ def case_split(terms, facts, max_cases=64, max_leaves=12):
                 collect_cond(a[1], depth + 1)
             elif a[0] == "mem":
                 collect(a[1], depth + 1)
+            elif a[0] not in ("arg", "fresh", "alloca", "unk", "iv", "global", "fconst", "exit", "prod", "alignup"):
+                # conditions nested inside operator atoms (ashr(γ(..) - γ(..), 2), purecall operands, ...)
+                for x in a[1:]:
+                    if isinstance(x, Lin):
+                        collect(x, depth + 1)
 
     def collect_cond(c, depth=0):
         k = c[0]
